@@ -266,7 +266,9 @@ class DetectReadsWritesCalls( DetectVarNames ):
 
   def visit_Attribute( self, node ): # s.a.b
     obj_name, nodelist = self._get_full_name( node )
-    if not obj_name:  return
+    # The base is not a name (a call result such as concat( s.a, s.b ).x):
+    # the signals inside the base expression are still read
+    if not obj_name:  return self.generic_visit( node )
 
     pair = (obj_name, nodelist, self.current_op)
 
@@ -279,7 +281,8 @@ class DetectReadsWritesCalls( DetectVarNames ):
 
   def visit_Subscript( self, node ): # s.a.b[0:3] or s.a.b[0]
     obj_name, nodelist = self._get_full_name( node )
-    if not obj_name:  return
+    # concat( s.a, s.b )[4:8]: the operands of the call are still read
+    if not obj_name:  return self.generic_visit( node )
 
     pair = (obj_name, nodelist, self.current_op)
 
@@ -294,7 +297,9 @@ class DetectReadsWritesCalls( DetectVarNames ):
 
   def visit_Call( self, node ):
     obj_name, nodelist = self._get_full_name( node.func )
-    if not obj_name:  return
+    # Bits4(1).__add__( s.a ): the callee is a method of a call result;
+    # the arguments are still read
+    if not obj_name:  return self.generic_visit( node )
 
     self.calls.append( (obj_name, nodelist, None) )
 
